@@ -338,3 +338,133 @@ Section Root.
       destruct r1 as [w|[ | | | ]]; cbn [fst snd]; auto.
   Qed.
 End Root.
+
+(* ---------- deleting the statement at one position, anywhere ---------- *)
+Lemma pos_eqb_eq a b : pos_eqb a b = true -> a = b.
+Proof.
+  revert b. induction a as [|x a IH]; intros [|y b]; cbn; try discriminate; auto.
+  intros H. apply andb_true_iff in H. destruct H as [H1 H2]. apply Nat.eqb_eq in H1. f_equal; auto.
+Qed.
+
+Lemma foralli_true {A} (f : nat -> A -> bool) (l : list A) : forall off,
+  (forall j x, nth_error l j = Some x -> f (off + j)%nat x = true) -> foralli f off l = true.
+Proof.
+  induction l as [|x r IH]; intros off H; cbn [foralli]; auto.
+  apply andb_true_iff. split.
+  - specialize (H 0%nat x eq_refl). rewrite Nat.add_0_r in H. exact H.
+  - apply IH. intros j y Hj. specialize (H (S j) y Hj). rewrite Nat.add_succ_r in H. exact H.
+Qed.
+
+Lemma stmts_ok_true {A} (D : A -> bool) (sel : nat -> bool) (l : list A) : forall off,
+  (forall j x, nth_error l j = Some x -> sel (off + j)%nat = true -> D x = true) -> stmts_ok D sel off l = true.
+Proof.
+  induction l as [|x r IH]; intros off H; cbn [stmts_ok]; auto.
+  destruct r as [|y r']; auto.
+  apply andb_true_iff. split.
+  - destruct (sel off) eqn:E; auto. apply (H 0%nat x eq_refl). rewrite Nat.add_0_r. exact E.
+  - apply IH. intros j z Hj Hs. apply (H (S j) z Hj). rewrite Nat.add_succ_r. exact Hs.
+Qed.
+
+Section Single.
+  Variable D : pexpr -> bool.
+  Variable q : pos.
+
+  (* every strict sub-expression of e (sitting at position p0) that lies at position q satisfies D *)
+  Definition below (e : pexpr) (p0 : pos) : Prop :=
+    forall r y, r <> [] -> sub e r = Some y -> p0 ++ r = q -> D y = true.
+
+  Lemma below_child e p0 i x : nth_error (children e) i = Some x -> below e p0 -> below x (p0 ++ [i]).
+  Proof.
+    intros Hn H r y Hr Hs Hq. apply (H (i :: r) y); [discriminate| |rewrite <- Hq, <- app_assoc; reflexivity].
+    cbn [sub]. rewrite Hn. exact Hs.
+  Qed.
+
+  Lemma below_here e p0 i x : nth_error (children e) i = Some x -> below e p0 -> pos_eqb q (p0 ++ [i]) = true -> D x = true.
+  Proof.
+    intros Hn H Hq. apply pos_eqb_eq in Hq. apply (H [i] x); [discriminate| |auto].
+    cbn [sub]. rewrite Hn. reflexivity.
+  Qed.
+
+  Definition Psel (e : pexpr) : Prop := forall p0, below e p0 -> sel_ok D (pos_eqb q) p0 e = true.
+
+  Lemma kids_sel e p0 (l : list pexpr) off : Forall Psel l -> below e p0 ->
+    (forall j a, nth_error l j = Some a -> nth_error (children e) (off + j) = Some a) ->
+    foralli (fun i x => sel_ok D (pos_eqb q) (p0 ++ [i]) x) off l = true.
+  Proof.
+    intros Hl Hb Hn. apply foralli_true. intros j x Hj. rewrite Forall_forall in Hl.
+    apply Hl; [eapply nth_error_In; eauto|]. eapply below_child; eauto.
+  Qed.
+
+  Lemma stmts_sel e p0 (l : list pexpr) off : Forall Psel l -> below e p0 ->
+    (forall j a, nth_error l j = Some a -> nth_error (children e) (off + j) = Some a) ->
+    stmts_ok D (fun i => pos_eqb q (p0 ++ [i])) off l
+    && foralli (fun i x => sel_ok D (pos_eqb q) (p0 ++ [i]) x) off l = true.
+  Proof.
+    intros Hl Hb Hn. apply andb_true_iff. split; [|eapply kids_sel; eauto].
+    apply stmts_ok_true. intros j x Hj Hs. eapply below_here; eauto.
+  Qed.
+
+  Theorem sel_single e : Psel e.
+  Proof.
+    induction e using pexpr_ind'; intros p0 Hb; cbn [sel_ok]; auto.
+    - apply IHe. eapply (below_child _ _ 0); eauto. reflexivity.
+    - apply IHe. eapply (below_child _ _ 0); eauto. reflexivity.
+    - apply (stmts_sel (PBlock es) p0 es 0); auto.
+    - apply (kids_sel (PArr es) p0 es 0); auto.
+    - apply foralli_true. intros j kv Hj. rewrite Forall_forall in H.
+      apply (H kv); [eapply nth_error_In; eauto|]. eapply below_child; eauto.
+      cbn [children Nat.add]. rewrite nth_error_map, Hj. reflexivity.
+    - apply andb_true_iff. split; [apply andb_true_iff; split|].
+      + apply (kids_sel (PIf c t f) p0 c 0); auto.
+        intros j a Hj. cbn [children Nat.add]. rewrite nth_error_app1; auto. apply nth_error_Some. congruence.
+      + apply (stmts_sel (PIf c t f) p0 t (List.length c)); auto.
+        intros j a Hj. cbn [children]. rewrite nth_error_app_off, nth_error_app1; auto. apply nth_error_Some. congruence.
+      + destruct f as [fb|]; auto. apply (stmts_sel (PIf c t (Some fb)) p0 fb (List.length c + List.length t)); auto.
+        intros j a Hj. cbn [children]. rewrite app_assoc, <- app_length, nth_error_app_off. exact Hj.
+    - apply andb_true_iff. split.
+      + apply IHe1. eapply (below_child _ _ 0); eauto. reflexivity.
+      + apply IHe2. eapply (below_child _ _ 1); eauto. reflexivity.
+    - apply IHe. eapply (below_child _ _ 0); eauto. reflexivity.
+    - apply IHe. eapply (below_child _ _ 0); eauto. reflexivity.
+    - apply IHe. eapply (below_child _ _ 0); eauto. reflexivity.
+    - destruct m as [m|]; auto. cbn in H. apply H. eapply (below_child _ _ 0); eauto. reflexivity.
+    - apply IHe. eapply (below_child _ _ 0); eauto. reflexivity.
+    - apply (kids_sel (PCall f bang args) p0 args 0); auto.
+    - apply andb_true_iff. split.
+      + apply IHe. eapply (below_child _ _ 0); eauto. reflexivity.
+      + apply (stmts_sel (PClosure cf bang e ps body) p0 body 1); auto.
+  Qed.
+
+  (* program level: if the expression at q satisfies D, deleting "the statement at q" only deletes D-statements *)
+  Theorem sel_single_prog (p : list pexpr) (x : pexpr) : psub p q = Some x -> D x = true ->
+    sel_ok_prog D (pos_eqb q) p = true.
+  Proof.
+    intros Hx HD. unfold sel_ok_prog. apply andb_true_iff. split.
+    - apply stmts_ok_true. intros j y Hj Hs. apply pos_eqb_eq in Hs. subst q. cbn [Nat.add psub sub] in Hx.
+      rewrite Hj in Hx. inversion Hx; subst. exact HD.
+    - apply foralli_true. intros j y Hj. cbn [Nat.add]. apply sel_single.
+      intros r z Hr Hs Hq. subst q. cbn [app psub] in Hx. rewrite Hj in Hx. rewrite Hs in Hx. inversion Hx; subst. exact HD.
+  Qed.
+End Single.
+
+Section RemoveAt.
+  Variable F : fname -> list value -> option value.
+  Variable binop : opcode -> value -> value -> option value.
+  Variable tf : fname -> nat -> bool.
+  Hypothesis tf_total : forall f args, tf f (List.length args) = true -> F f args <> None.
+
+  (* any flagged position: if the flagged expression's children are effect-free and cannot fail, deleting the
+     statement at that position (a no-op unless it is a non-last statement of some block) preserves the run *)
+  Theorem removable_at p q c x :
+    In (q, c) (check_program p) -> psub p q = Some x -> kids_total tf x = true ->
+    forall s, faults s = [] ->
+      fst (run F binop (elab_prog p) s) = fst (run F binop (elab_prog (delete_at q p)) s)
+      /\ core (snd (run F binop (elab_prog p) s)) = core (snd (run F binop (elab_prog (delete_at q p)) s)).
+  Proof.
+    intros Hin Hx Hk s Hs. destruct (flagged_shape _ _ _ Hin) as [y [Hy Hsh]].
+    rewrite Hx in Hy. inversion Hy; subst y.
+    pose proof (shape_kids_total tf c x Hsh Hk) as Ht.
+    apply (pdel_run F binop tf tf_total); auto.
+    eapply sel_single_prog; eauto.
+  Qed.
+End RemoveAt.
